@@ -1744,6 +1744,108 @@ impl Scenario for FsaSeq {
     }
 }
 
+// ------------------------------------------------------------------------------------------
+// several reader threads on one shared LruPageCache (E1): an extension beyond the access
+// *sequences* the statement quantifies over - LruPageCache is Sync and meant to be shared, and
+// "returns exactly the bytes of the underlying file" is not conditional on who else is reading.
+// Scheduling points: the cache's and the file manager's locks and atomics (shimmed) plus the seek
+// and read calls of FileManager::read_page (guarded points), because the OS file cursor is shared
+// state between them.
+
+struct PageCacheReaders;
+
+impl Scenario for PageCacheReaders {
+    fn name(&self) -> String {
+        "page_cache/concurrent-readers".into()
+    }
+    fn budget(&self, tier: Tier) -> u64 {
+        match tier {
+            Tier::Quick => 1_500,
+            Tier::Thorough => 60_000,
+        }
+    }
+    fn run(&self, cx: &mut Run) {
+        use zsim_core::e1;
+        zsim_core::hooks::reset();
+        let cfg = cx.src.chan("cfg");
+        let nthreads = 2 + cfg.biased_zero(2, 1, 3) as usize;
+        let e1cfg = e1::draw_cfg(&cfg, 20_000);
+        let cap_pages = 1 + cfg.below(3) as usize;
+        let shards = *cfg.pick(&[1u32, 2, 4]);
+        let pcc = PageCacheConfig::balanced().with_capacity(cap_pages * PAGE_SIZE).with_shards(shards);
+        let scratch = Scratch::new(cx.src.seed, "pr");
+        let pc = match LruPageCache::new(pcc) {
+            Ok(c) => Arc::new(c),
+            Err(e) => {
+                cx.violate("construct_refused", "LruPageCache.new", e.to_string());
+                return;
+            }
+        };
+        let pages = cap_pages + 2 + cfg.below(3) as usize;
+        let size = pages * PAGE_SIZE + *cfg.pick(&[0usize, 0, 100]);
+        let data: Arc<Vec<u8>> = Arc::new((0..size).map(|o| fill(0, 0, o)).collect());
+        let path = scratch.dir.join("shared.bin");
+        std::fs::write(&path, &data[..]).expect("write scratch file");
+        let fid = match pc.open_file(&path) {
+            Ok(id) => id,
+            Err(e) => {
+                cx.violate("open_refused", "LruPageCache.open_file", e.to_string());
+                return;
+            }
+        };
+        cx.ev(format!("LruPageCache capacity={} pages shards={} file={} pages +{} readers={}", cap_pages, shards, pages, size % PAGE_SIZE, nthreads));
+        let out: Arc<Mutex<(Vec<String>, Option<zsim_core::Violation>)>> = Arc::new(Mutex::new((vec![], None)));
+        let mut bodies: Vec<e1::Body> = vec![];
+        for t in 0..nthreads {
+            let planned = 1 + cfg.below(3);
+            let mut ops = cx.src.ops(&format!("ops.t{}", t), planned);
+            let mut list = vec![];
+            while let Some(o) = ops.next() {
+                list.push(o);
+            }
+            let (pc, data, out) = (pc.clone(), data.clone(), out.clone());
+            bodies.push(Box::new(move |me: usize| {
+                for o in &list {
+                    let page = (o[0] as usize) % (data.len() / PAGE_SIZE);
+                    let off = page * PAGE_SIZE + [0usize, 0, 1, 100, 4000][(o[1] % 5) as usize];
+                    let len = [1usize, 16, 200, 4096, 5000][(o[2] % 5) as usize];
+                    let want: &[u8] = &data[off.min(data.len())..(off + len).min(data.len())];
+                    let r = pc.read(fid, off as u64, len);
+                    let mut g = out.lock().unwrap();
+                    match r {
+                        Ok(b) => {
+                            let got = b.data().to_vec();
+                            g.0.push(format!("t{} read(off={}, len={}) -> {} bytes", me, off, len, got.len()));
+                            if got != want && g.1.is_none() {
+                                let at = got.iter().zip(want.iter()).position(|(a, b)| a != b).unwrap_or(got.len().min(want.len()));
+                                g.1 = Some(zsim_core::Violation::new("wrong_bytes", "LruPageCache.read@concurrent", format!("t{} read(off={}, len={}) returned {} bytes that differ from the file at byte {} (file has {} bytes there); another reader was inside read_page at the same time", me, off, len, got.len(), at, want.len())));
+                            }
+                        }
+                        Err(e) => g.0.push(format!("t{} read(off={}, len={}) -> Err({})", me, off, len, e.to_string().chars().take(40).collect::<String>())),
+                    }
+                }
+            }));
+        }
+        let inv_out = out.clone();
+        let inv: e1::Invariant = Box::new(move || inv_out.lock().unwrap().1.take());
+        let sched = cx.src.chan("sched");
+        let res = e1::run_threads(&sched, &e1cfg, bodies, Some(inv));
+        let mut g = out.lock().unwrap();
+        for e in &g.0 {
+            cx.ev(e);
+        }
+        cx.trace.feed(res.hash);
+        cx.steps = res.steps;
+        cx.abandoned = res.abandoned;
+        cx.probe_n("context_switches", res.switches);
+        cx.probe_n("lock_waits", res.lock_waits);
+        cx.nontrivial = res.switches >= 1;
+        if let Some(v) = res.violation.or(g.1.take()) {
+            cx.violate(&v.class, &v.site, v.detail);
+        }
+    }
+}
+
 fn main() {
     let mut spec = CheckSpec::new(
         "C17",
@@ -1777,6 +1879,7 @@ fn main() {
     spec.scenarios.push(Box::new(PageCache { single: false, faulty: true }));
     spec.scenarios.push(Box::new(PageCache { single: true, faulty: false }));
     spec.scenarios.push(Box::new(PageCache { single: true, faulty: true }));
+    spec.scenarios.push(Box::new(PageCacheReaders));
     spec.scenarios.push(Box::new(CachedBlob { faulty: false }));
     spec.scenarios.push(Box::new(CachedBlob { faulty: true }));
     spec.scenarios.push(Box::new(FsaSeq));
